@@ -624,6 +624,51 @@ def parRun (lockedDecode : Bool) (p : Par) : List Nat → Par
     | some p' => parRun lockedDecode p' is
     | none => parRun lockedDecode p is
 
+/-! ### who closes `done` in `SendProtobufParallelWithDecoder` (websocket_client.go:352-418)
+
+`done` is closed by the routine that accepts a node's reply — inside the `decoding` mutex, after
+having seen it open — and, with `ParallelOptions.QuitError`, by the caller's loop on the first
+error.  `guarded = true` (the code as it is): the caller closes it inside the same mutex and only if
+it is still open; `guarded = false` (the code before): a bare `close(done)`. -/
+structure QPar where
+  done : Bool := false
+  /-- `close of closed channel` -/
+  panic : Bool := false
+  /-- the routine that holds `decoding` and has found `done` open -/
+  inCS : Option Nat := none
+  winner : Option Nat := none
+  /-- the caller has returned with the error -/
+  quit : Bool := false
+  deriving Repr, DecidableEq
+
+inductive QAct where
+  | enter (i : Nat)   -- routine of node `i`: `decoding.Lock(); select { case <-done: … default:` (its reply decodes)
+  | leave             -- … `decodedChan <- node; close(done) }; decoding.Unlock()`
+  | quit              -- the caller: `case err := <-errChan: if opt.Quit() { … close(done) … return nil, err }`
+  deriving Repr, DecidableEq
+
+def qStep (guarded : Bool) (p : QPar) : QAct → QPar
+  | .enter i =>
+    if p.panic || p.inCS.isSome || p.done then p else { p with inCS := some i }
+  | .leave =>
+    match p.inCS with
+    | none => p
+    | some i =>
+      if p.panic then p
+      else if p.done then { p with panic := true, inCS := none }
+      else { p with done := true, winner := some i, inCS := none }
+  | .quit =>
+    if p.panic || p.quit then p
+    else if guarded then
+      if p.inCS.isSome then p        -- waits for the mutex
+      else { p with done := true, quit := true }
+    else if p.done then { p with panic := true }
+    else { p with done := true, quit := true }
+
+def qRun (guarded : Bool) (p : QPar) : List QAct → QPar
+  | [] => p
+  | a :: as => qRun guarded (qStep guarded p a) as
+
 /-! ## Registration: one table per API (processor.go:59-71, 192-315, 321-350)
 
 `RegisterHandler(f)` enters `f` into `p.handlers` under the name of its message type
@@ -985,6 +1030,27 @@ def concreteCfg (al : Alloc) : Cfg Nat Msg Reply Msg Body where
   alloc := al
 
 /-! ## Line-protocol driver -/
+/-! ### `Client.SendToAll` (websocket_client.go:508-525)
+
+One `Send` per roster entry, in roster order, through the same client object (state `σ`: its
+connections and locks); `msgs[i]` is the reply of entry `i` — nil when the `Send` to entry `i`
+failed — and the errors are collected into one error.  `compact = true` is the variant that appends
+only the successful replies (so that later replies move forward past a failed entry). -/
+def sendToAll {σ α β : Type} (compact : Bool) (send : σ → α → σ × Option β) : σ → List α → σ × List (Option β) × Nat
+  | s, [] => (s, [], 0)
+  | s, e :: es =>
+    let r := send s e
+    let rest := sendToAll compact send r.1 es
+    match r.2 with
+    | some b => (rest.1, some b :: rest.2.1, rest.2.2)
+    | none => (rest.1, if compact then rest.2.1 else none :: rest.2.1, rest.2.2 + 1)
+
+/-- the client state in which entry `i` of the roster is asked -/
+def stateAt {σ α β : Type} (send : σ → α → σ × Option β) : σ → List α → Nat → σ
+  | s, _, 0 => s
+  | s, [], _ + 1 => s
+  | s, e :: es, i + 1 => stateAt send (send s e).1 es i
+
 namespace Drv
 
 /-- the number of handler invocations so far (the only state: no request leaves anything else) -/
@@ -1219,7 +1285,11 @@ def step (s : State) (toks : List String) : State × String :=
     | some n, some _ =>
       -- modes with unreachable nodes: `down1`, `down2` — the others answer (`c14_parallel_pair_with_failures`);
       -- `downall` — nobody answers; `downquit` — the first error ends the call
-      (s, if 3 ≤ n ∧ (mode = "overlap" ∨ mode = "plain" ∨ mode = "ordered" ∨ mode = "quit" ∨ mode = "down1" ∨ mode = "down2")
+      -- `quiterr`: QuitError with a node that answers with an error while others answer: the call ends
+      -- with the error or with a matching pair, whichever comes first — and never crashes
+      -- (`c14_parallel_quit_closes_done_once`)
+      (s, if 3 ≤ n ∧ mode = "quiterr" then "ok quit"
+          else if 3 ≤ n ∧ (mode = "overlap" ∨ mode = "plain" ∨ mode = "ordered" ∨ mode = "quit" ∨ mode = "down1" ∨ mode = "down2")
           then "ok pair"
           else if 3 ≤ n ∧ (mode = "downall" ∨ mode = "downquit") then "err" else "bad-op")
     | _, _ => (s, "bad-op")
@@ -1239,6 +1309,21 @@ def step (s : State) (toks : List String) : State × String :=
           go k st' (if txt.startsWith "close" then txt else r.2)
       go n s ""
     | _, _ => (s, "bad-op")
+  | ["allwho", _thr, _client, _n, nonce, pattern] =>
+    -- `Client.SendToAll` of a `C14Who` request to a roster described by `pattern`: `u` = the next
+    -- server of the case (answers with its own address), `d` = a node nobody listens on (`Send` fails).
+    -- Observation per roster position: the reply at that position is the one of that entry / nothing;
+    -- then whether an error was returned (`sendToAll`, `c14_send_to_all_positional`)
+    match nonce.toInt? with
+    | some _ =>
+      let cs := pattern.toList
+      if cs.isEmpty || cs.any (fun c => c != 'u' && c != 'd') then (s, "bad-op") else
+      let res := sendToAll false (fun (st : Unit) (c : Char) => (st, if c = 'u' then some c else none)) () cs
+      let cells := (cs.zip res.2.1).map fun (c, r) => s!"{c}:" ++ (match r with | some _ => "own" | none => "nil")
+      -- the first `u` is the server the `ws` / `cstate` ops talk to: one answered `Send` of this client object
+      let s' := if cs.contains 'u' then sendThrough s _client "C14Who" [] true else s
+      (s', s!"len={res.2.1.length} " ++ " ".intercalate cells ++ (if res.2.2 = 0 then " noerr" else " err"))
+    | none => (s, "bad-op")
   | ["reg", api, sig] =>
     -- a registration attempt with the function named `sig` of the harness's table (c14.go `c14sigs`)
     match sigOf sig, api.splitOn ":" with
